@@ -108,7 +108,18 @@ def process_zone(tz, suffix):
 ID_STYLE = ["short"]
 
 
-def run_case(kind, n, incs, exps, zsk, pol_kw, now=NOW, shuffle=False, desc=None, fixed_ids=None):
+def policy_via_config(pol_kw):
+    """The request policy as the tools get it: written in ksrsigner.yaml (periods as ISO 8601 text), loaded through the configuration reader."""
+    import io
+    import yaml
+    from kskm.common.config import KSKMConfig
+    rp = {k: (ksrxml.fmt_dur(v) if isinstance(v, D) else v) for k, v in pol_kw.items()}
+    rp.update(validate_signatures=False, keys_match_zsk_policy=False, check_keys_match_ksk_operator_policy=False, signature_algorithms_match_zsk_policy=False)
+    text = yaml.safe_dump({"request_policy": rp})
+    return KSKMConfig.from_dict(yaml.safe_load(io.StringIO(text))).request_policy
+
+
+def run_case(kind, n, incs, exps, zsk, pol_kw, now=NOW, shuffle=False, desc=None, fixed_ids=None, via_config=False):
     global accepts
     # bundle ids are opaque: unique, but free to share a long common prefix (operators name them by quarter) or to be UUIDs
     style = ID_STYLE[0] if ID_STYLE[0] != "mixed" else R.choice(["short", "named", "uuid", "suffix"])
@@ -125,6 +136,13 @@ def run_case(kind, n, incs, exps, zsk, pol_kw, now=NOW, shuffle=False, desc=None
     xml = ksrxml.render_ksr({"id": "req-1", "serial": 1, "domain": ".", "zsk": zsk, "bundles": doc})
     pol = RequestPolicy(validate_signatures=False, keys_match_zsk_policy=False, check_keys_match_ksk_operator_policy=False,
                         signature_algorithms_match_zsk_policy=False, **pol_kw)
+    if via_config:
+        want_pol = pol
+        pol = policy_via_config(pol_kw)
+        if pol != want_pol:
+            diff_ = [f for f in pol_kw if getattr(pol, f) != getattr(want_pol, f)]
+            rep.violation("impl-vs-spec", f"{kind}: the request policy written in the configuration file is not the one loaded: {[(f, pol_kw[f], getattr(pol, f)) for f in diff_][:4]}",
+                          {"kind": kind, "options": {k: str(v) for k, v in pol_kw.items()}, "loaded": {f: str(getattr(pol, f)) for f in diff_}})
     PinnedDT.pinned = now
     req = request_from_xml(xml)
     r = vlib.run_impl(validate_request, req, pol)
@@ -273,6 +291,30 @@ try:
                         elif delta != D(0):
                             continue
                         run_case("zone-" + rule, n, incs, exps, zsk, kw, now, desc={"rule": rule, "delta_s": delta.total_seconds()})
+
+    # B0. the same through the configuration file: one check switched off there (false), one rule violated; zero and empty values written there too
+    for off in FLAGS:
+        for rule in ["vmin", "omax", "imin", "cmax", "past", "ok"]:
+            n = 3
+            zsk = zsk_for(False)
+            incs, exps = baseline(n, validity=D(days=19))
+            kw = pol_for(n, set(FLAGS) - {off})
+            now = NOW
+            if rule == "vmin":
+                exps[0] = incs[0] + zsk["min_validity"] - D(seconds=1)
+            elif rule == "omax":
+                exps[0] = incs[1] + zsk["max_overlap"] + D(seconds=1)
+            elif rule == "imin":
+                incs[1] = incs[0] + kw["min_bundle_interval"] - D(seconds=1)
+                exps[1] = incs[1] + D(days=19)
+            elif rule == "cmax":
+                incs[-1] = incs[0] + kw["max_cycle_inception_length"] + D(seconds=1)
+                exps[-1] = incs[-1] + D(days=19)
+            elif rule == "past":
+                now = exps[0] + D(seconds=1)
+            run_case("config-file-flag-off-" + rule, n, incs, exps, zsk, kw, now, desc={"flag_off_in_file": off, "rule": rule}, via_config=True)
+    run_case("config-file-zero-values", 1, *baseline(1, validity=D(days=19)), zsk_for(False), pol_for(1, None, min_cycle_inception_length=D(0), max_cycle_inception_length=D(0), min_bundle_interval=D(0)),
+             NOW, via_config=True)
 
     # B. all 2^5 flag subsets on a reduced lattice (one rule violated at a time)
     for mask in range(32):
